@@ -25,7 +25,12 @@ def gen_request(rng, F, flavor):
     # with "/settings<valid leaf path>" (a sibling device id)
     sibling = PREFIX[:-1] + ("w" if PREFIX[-1] != "w" else "x") + "/settings" + rng.choice(leaves)
     topic = (PREFIX + "/settings" + path) if path is not None else rng.choice(
-        [PREFIX + "/other/x", "zz/settings/foo", PREFIX + "/alive", PREFIX + "/setting", sibling, sibling])
+        [PREFIX + "/other/x", "zz/settings/foo", PREFIX + "/alive", PREFIX + "/setting", sibling, sibling,
+         # under the client's own prefix, not under "/settings", but with a level at least as long as "/settings" followed
+         # by a valid path (a check of the level's LENGTH instead of its text would take these for requests)
+         PREFIX + "/telemetry" + rng.choice(leaves), PREFIX + "/telemetry" + rng.choice(internals or leaves),
+         PREFIX + "/settingsX" + rng.choice(leaves), PREFIX + "/response" + rng.choice(leaves),
+         PREFIX + "/SETTINGS" + rng.choice(leaves), PREFIX + "/settings" + "/settings" + rng.choice(leaves)])
     kind = rng.random()
     if kind < 0.45:
         payload = ""
@@ -74,6 +79,13 @@ def gen_history(rng, fam, flavor, length):
     # wrap falls into the start-up sequence (dump time-out) or into the later traffic
     if rng.random() < 0.3:
         ev += [f"clk{2 ** 32 - rng.choice([50, 500, 1500, 1990, 2500, 7000])}"]
+    if flavor == "faults" and rng.random() < 0.3:
+        # a slow link: `send()` takes a few bytes per call, so CONNECT / alive / SUBSCRIBE drain over many update() calls and
+        # minimq reports NotReady in between (no clock advance meanwhile; such histories are judged by the packet-level
+        # oracle only, the per-update model comparison assumes whole-packet writes)
+        # (the slow phase ends before any inbound request: minimq 0.10 itself asserts `pending_write.is_none()` when it has to
+        # answer an inbound packet while a partial write is pending — third-party, part of the environment)
+        ev += [f"txchunk{rng.choice([7, 9, 13])}", f"un{rng.choice([40, 60])}", "txchunkoff"]
     if flavor == "faults" and rng.random() < 0.25:
         # the SUBACK of the first connection is withheld, then the link is lost and the session is kept
         ev += ["suback0", f"un{rng.choice([6, 7, 9])}", rng.choice(["sess1", "sess1", "sess0"]), "drop", "suback1"]
@@ -86,7 +98,9 @@ def gen_history(rng, fam, flavor, length):
     if flavor == "dump" and fam == 3 and rng.random() < 0.7:
         ev += [f"set:{cp('/text')}:{cp(chr(34) + 'n' * rng.choice([10, 130, 200, 256]) + chr(34))}"]
     if fam == 3 and rng.random() < 0.7:
-        ev += [f"optsome{rng.randrange(1, 256)}", f"mode{rng.choice('ab')}{rng.randrange(256)}"]
+        ev += [f"optsome{rng.randrange(1, 256)}", f"mode{rng.choice('abb')}{rng.randrange(256)}"]
+        if rng.random() < 0.5:
+            ev += ["vlock1"]    # the validator on the payload of `mode/B` rejects from now on
     if flavor == "dump" and fam == 1 and rng.random() < 0.6:
         ev += [f"set:{cp('/inner/name')}:{cp(chr(34) + 'n' * rng.choice([10, 40, 60, 64]) + chr(34))}"]
         if rng.random() < 0.5:
@@ -104,6 +118,14 @@ def gen_history(rng, fam, flavor, length):
         ev += [f"un{rng.choice([2, 3, 4])}", "auto0", f"un{rng.choice([2, 3, 5])}", rng.choice(["sess0", "sess1"]), "drop", "auto1",
                f"un{rng.choice([6, 7, 9])}", f"adv{rng.choice([2000, 2600])}"]
     ev += [f"un{rng.choice([3, 12, 25, 40])}"]
+    if fam == 3 and rng.random() < 0.45:
+        # writes to the payload of the present enum variant `mode/B` while its validator rejects, then while it accepts:
+        # the first is answered Error ("Invalid value (depth: 2)"), update() returns false, the leaf holds the new value
+        topic = cp(PREFIX + "/settings/mode/B")
+        ev += [f"modeb{rng.randrange(256)}", "vlock1",
+               f"pub:{topic}:{cp(str(rng.randrange(256)))}:{rng.choice([cp(RESP), '-'])}:{rng.randrange(256):02x}:0:0",
+               f"un{rng.choice([1, 2, 3])}", rng.choice(["vlock0", "vlock0", "modea7"]),
+               f"pub:{topic}:{cp(str(rng.randrange(256)))}:{cp(RESP)}:{rng.randrange(256):02x}:0:0", f"un{rng.choice([2, 4])}"]
     for _ in range(length):
         r = rng.random()
         if r < 0.4 and small:
@@ -157,7 +179,7 @@ def gen_history(rng, fam, flavor, length):
             ev.append(f"set:{cp(p)}:{cp(v)}")
         elif r < 0.8 and fam in (1, 3):
             ev.append(rng.choice(["optnone", f"optsome{rng.randrange(256)}"] +
-                                 ([f"mode{rng.choice('ocab')}{rng.randrange(256)}"] * 2 if fam == 3 else [])))
+                                 ([f"mode{rng.choice('ocab')}{rng.randrange(256)}"] * 2 + ["vlock0", "vlock1"] if fam == 3 else [])))
         elif r < 0.88 and flavor in ("faults", "dump"):
             ev += rng.choice([["auto0", f"un{rng.randrange(2, 8)}", f"ack{rng.randrange(1, 3)}", f"un{rng.randrange(1, 5)}", "auto1"],
                               ["auto0", f"un{rng.randrange(2, 6)}", "ackall", "auto1", "un3"]])
@@ -483,6 +505,8 @@ def analyze(events, recs, fam, bufsize=0):
             F.mode = ev[4]
             if ev[4] in "ab":
                 F.val["/mode/" + ev[4].upper()] = int(ev[5:] or 0)
+        elif ev in ("vlock0", "vlock1"):
+            F.vlock = ev == "vlock1"
         elif ev == "auto0":
             acks_on = False
         elif ev in ("auto1",):
@@ -568,7 +592,8 @@ def run_mqtt(rep, prop_id, rng, tier):
         except Exception as e:  # an unparsable trace is a broken check, reported as such
             rep.violation("proof", {"what": f"trace analysis crashed: {type(e).__name__}: {e}", "case": case}, no_input=True)
             continue
-        parsed[i] = (items, exp)
+        if not any(e.startswith("txchunk") for e in ev):
+            parsed[i] = (items, exp)
         for k, v in stats.items():
             totals[k] = totals.get(k, 0) + v
         distinct.add((fam, flavor, tuple(sorted((k, min(v, 3)) for k, v in stats.items()))))
@@ -580,7 +605,8 @@ def run_mqtt(rep, prop_id, rng, tier):
                     rep.known.append(k["what"])
             elif sum(1 for v in rep.violations if v["kind"] == "oracle") < 5:
                 rep.violation("oracle", {"case": case, "why": why, "impl_tail": out[-400:]})
-        mlines.append(f"mqm h{i} 1000 {fam} {cp(PREFIX)} " + " ".join(items))
+        if i in parsed:
+            mlines.append(f"mqm h{i} 1000 {fam} {cp(PREFIX)} " + " ".join(items))
     if dok:
         drc, model, derr = run_lines(driver_bin(), mlines)
         for i, (items, exp) in parsed.items():
